@@ -27,8 +27,18 @@ import threading
 import vlib
 from vlib import Inconclusive, log
 
-SPEC_FILES = ["z/TreeMap.tla", "z/TreeOps.tla", "z/TreePages.tla", "z/TraceTree.tla"]
+SPEC_FILES = ["z/TreeMap.tla", "z/TreeOps.tla", "z/TreePages.tla", "z/TreeGoals.tla", "z/TraceTree.tla"]
 PAGE_SIZES = [80, 96, 128, 256, 4096]
+# bulk growth family: every small page size (a different number of keys per node each) plus 512 and 4096
+BULK_SIZES = list(range(80, 273, 16)) + [512, 4096]
+# coverage goals of spec/z/TreeGoals.tla per property: (goal, file-backed?, NKeys, depth)
+GOALS_FOR = {
+    "C10": [("G_ReallocBelowRoot", False, 10, 16), ("G_ReallocRootRight", False, 10, 16),
+            ("G_ReallocRootLeft", False, 10, 16), ("G_ReallocRootLeft", True, 10, 16)],
+    "C16": [("G_GrowAfterReopen2", True, 20, 32), ("G_ReallocRootAfterReopen", True, 12, 18),
+            ("G_ReallocRootLeft", True, 10, 16)],
+}
+GOAL_MINSIZES = "{" + ",".join(str(x) for x in range(168, 329, 8)) + "}"
 # which modelled repair belongs to which design invariant
 REPAIR_OF = {"MapRefinement": "FixStaleMax", "IterateExact": "FixStaleMax",
              "ReopenNoPanic": "FixReinitBound", "ReopenSame": "FixReinitBound"}
@@ -72,15 +82,15 @@ def cfg_consts(text):
 # ----------------------------------------------------------------------------------------------
 
 def op_of(action, args):
-    if action in ("DoSet", "MapSet"):
+    if action in ("DoSet", "MapSet", "GSet"):
         return {"op": "Set", "k": args[0], "v": args[1]}
-    if action in ("DoDeleteBelow", "MapDeleteBelow"):
+    if action in ("DoDeleteBelow", "MapDeleteBelow", "GDel"):
         return {"op": "Del", "v": args[0]}
     if action in ("DoRewrite", "MapRewrite"):
         return {"op": "Rw", "a": args[0], "b": args[1]}
     if action in ("DoReset", "MapReset"):
         return {"op": "Reset"}
-    if action in ("DoReopen", "MapCloseReopen"):
+    if action in ("DoReopen", "MapCloseReopen", "GReopen"):
         return {"op": "Reopen"}
     return None
 
@@ -204,6 +214,11 @@ def lead_scenarios(lead, pers_default):
     pers = c.get("Persistent", "FALSE") == "TRUE"
     inv = lead["invariant"]
     out = []
+    if lead.get("ms"):        # found in a scaled configuration: replay on a tree with the same minSize
+        for emb in (0, 1, 6):
+            out.append({"src": "lead:" + inv, "u": nk, "w": nv + 1, "ps": 80, "pers": pers, "emb": emb,
+                        "wb": True, "ms": lead["ms"], "ops": list(lead["ops"])})
+        return out
     if inv in ("ReopenNoPanic", "ReopenSame"):
         # The model's file (MinSize = 5 pages) is the scaled 1 MiB file: the state "the allocation
         # frontier stands on the last, partial page of the file" is reached on the real tree by
@@ -233,12 +248,90 @@ def model_scenarios(behs, consts, src, pers, rnd, extra_sizes=1):
     for i, ops in enumerate(behs):
         if not ops:
             continue
+        # every second behaviour of the page model runs on a "scaled" tree: minSize = the model's MinSize
+        # (5 pages), so the real buffer / file is reallocated / extended where the model's is
+        ms = int(consts.get("MinSize", 0)) if i % 2 == 0 else 0
         out.append({"src": src, "u": nk, "w": nv + 1, "ps": 80, "pers": pers, "emb": rnd.randrange(16),
-                    "wb": True, "ops": ops})
+                    "wb": True, "ms": ms, "ops": ops})
         for j in range(extra_sizes):
             ps = PAGE_SIZES[1 + (i + j) % 4]
             out.append({"src": src, "u": nk, "w": nv + 1, "ps": ps, "pers": pers, "emb": rnd.randrange(16),
                         "wb": False, "ops": ops})
+    return out
+
+
+def goal_behaviours(ctx, pid, toggles):
+    """One behaviour per coverage goal of TreeGoals.tla (TLC simulation with the goal as invariant).
+    Returns (scenarios for the real tree, summary, design leads)."""
+    from concurrent.futures import ThreadPoolExecutor
+    safe = all(toggles.values())      # the design invariants only where the design is expected to hold
+
+    def one(job):
+        goal, pers, nk, depth = job
+        text = cfg_text("GOAL_TreeGoals.cfg", toggles, Persistent=pers, NKeys=nk, MinSizes=GOAL_MINSIZES)
+        text += "INVARIANTS %s%s\n" % (goal, " GSafe" if safe else "")
+        r = vlib.tlc(ctx, SPEC_FILES, "TreeGoals", text, name="goal-%s-%s" % (goal, "pers" if pers else "mem"),
+                     workers=2, timeout=240, simulate={"num": 400000, "depth": depth, "file": None},
+                     seed=ctx.seed * 31 + 7)
+        return job, r, cfg_consts(text)
+
+    jobs = GOALS_FOR[pid]
+    scen, summ, dleads = [], [], []
+    with ThreadPoolExecutor(max_workers=len(jobs)) as ex:
+        for (goal, pers, nk, depth), r, c in ex.map(one, jobs):
+            ops = counterexample_ops(r.out) if r.violated else []
+            m = re.search(r"/\\ ms = (\d+)", r.out)
+            ms = int(m.group(1)) if m else 0
+            reached = r.violated == goal and bool(ops) and ms > 0
+            summ.append({"goal": goal, "file_backed": pers, "reached_by_tlc": reached, "minsize": ms,
+                         "behaviour": fmt_ops(ops, 40), "wall_s": round(r.wall, 1)})
+            if reached:
+                for emb in (0, 1, 6):
+                    scen.append({"src": "goal:" + goal, "u": nk, "w": int(c["NVals"]) + 1, "ps": 80, "pers": pers,
+                                 "ms": ms, "emb": emb, "wb": True, "ops": ops})
+            elif r.violated == "GSafe" and ops and ms:
+                log("design lead (scaled configuration, minSize %d): GSafe violated: %s" % (ms, fmt_ops(ops, 40)))
+                dleads.append({"invariant": "GSafe", "ops": ops, "toggles": dict(toggles), "ms": ms,
+                               "consts": dict(c, Persistent="TRUE" if pers else "FALSE"),
+                               "generated": r.generated, "distinct": r.distinct})
+            elif r.timed_out or r.error:
+                raise Inconclusive("goal search %s failed: %s\n%s" % (goal, r.error, r.out[-800:]))
+            else:
+                ctx.notes.append("coverage goal %s not reached by TLC simulation within its budget" % goal)
+    return scen, summ, dleads
+
+
+def bulk_scenarios(pid, rnd, quick, seed):
+    """Large trees with compact checkpoints (harness: bulk): growth of the buffer / file several times,
+    DeleteBelow and reuse at scale, reopen after the file was extended twice and further growth; and the
+    planner's (page size, order, backing) combinations in which a root split coincides with a
+    reallocation (bulk-goal; resolved inside the harness)."""
+    out = []
+    orders = ["asc", "desc", "alt", "stride"]
+    goal_idx = [seed % 2, 2 + seed % 2] if quick else [0, 1, 2, 3]
+    if pid == "C16":
+        goal_idx = [2 + seed % 2] if quick else [2, 3]
+    for j in goal_idx:
+        out.append({"src": "bulk-goal", "gen": "bulk-goal", "n": j, "u": 10, "w": rnd.randint(3, 5), "ps": 80,
+                    "pers": False, "emb": rnd.choice([0, 1, 2, 5])})
+    sizes = BULK_SIZES if not quick else sorted({4096, rnd.choice(BULK_SIZES[:-1]), rnd.choice(BULK_SIZES[:13])})
+    for i, ps in enumerate(sizes):
+        w = rnd.randint(3, 5)
+        if pid == "C10" or not quick:
+            order = orders[(i + seed) % 4] if ps < 4096 else orders[(i + seed) % 2]
+            out.append({"src": "bulk-mem", "bulk": True, "u": 420000, "w": w, "ps": ps, "pers": False,
+                        "emb": rnd.choice([0, 1, 2]), "ops": [
+                            {"op": "BSet", "k": 330000, "a": 2, "b": 5, "p": order},
+                            {"op": "BDel", "v": rnd.randint(2, w)},
+                            {"op": "BSet", "k": 20000, "b": 2, "p": orders[(i + seed + 1) % 2]}]})
+        if pid == "C16" or not quick or ps == 4096:
+            order = orders[(i + seed) % 2] if ps >= 512 else orders[(i + seed) % 3]
+            out.append({"src": "bulk-file", "bulk": True, "u": 300000, "w": w, "ps": ps, "pers": True,
+                        "emb": rnd.choice([0, 1, 2]), "ops": [
+                            {"op": "BSet", "k": 120000, "a": 2, "b": 4, "p": order}, {"op": "Reopen"},
+                            {"op": "BSet", "k": 120000, "a": 1, "b": 3, "p": order}, {"op": "Reopen"},
+                            {"op": "BDel", "v": rnd.randint(2, w)}, {"op": "Reopen"},
+                            {"op": "BSet", "k": 4000, "b": 1, "p": "asc"}, {"op": "Reopen"}]})
     return out
 
 
@@ -273,8 +366,12 @@ def random_scenarios(n, pers_share, rnd, quick):
             u = rnd.randint(6, 60) if size < 0.6 else rnd.randint(270, 340 if quick else 600)
         nops = int(u * rnd.uniform(1.2, 2.5)) + 6
         nops = min(nops, 160 if quick else 700)
-        out.append({"src": "random-" + gens[i % 4], "gen": gens[i % 4], "n": nops, "u": u,
-                    "w": rnd.randint(2, 6), "ps": ps, "pers": rnd.random() < pers_share,
+        # a third of the small-page histories on a scaled tree (minSize of 3..12 pages, any multiple of 8)
+        ms = 0
+        if mk <= 7 and rnd.random() < 0.35:
+            ms = 8 * rnd.randint((2 * ps + 8 + 7) // 8 + 1, 12 * ps // 8)
+        out.append({"src": "random-" + gens[i % 4] + ("-scaled" if ms else ""), "gen": gens[i % 4], "n": nops, "u": u,
+                    "w": rnd.randint(2, 6), "ps": ps, "pers": rnd.random() < pers_share, "ms": ms,
                     "emb": rnd.randrange(16), "wb": mk == 4 and u <= 24 and rnd.random() < 0.5})
     return out
 
@@ -343,6 +440,48 @@ def extract_trace(path, at):
     while j < len(lines) and '"ev":"New"' not in lines[j]:
         j += 1
     return [x for x in lines[i:j] if x]
+
+
+def bulk_coverage(paths):
+    """White-box facts recorded by the bulk scenarios (measured on the real tree, not judged)."""
+    cov = {"traces": 0, "keys_inserted": 0, "checkpoints": 0, "capacity_changes": 0, "root_splits": 0,
+           "root_splits_with_reallocation": 0, "reopens": 0, "goal_traces": 0,
+           "goal_traces_with_reallocation_in_last_step": 0}
+    for tp in paths:
+        last = None
+        prev_cl = cur_cl = None
+        goal = False
+
+        def close():
+            if last is not None:
+                cov["keys_inserted"] += last["n"]
+                cov["capacity_changes"] += last["grows"]
+                cov["root_splits"] += last["rsplit"]
+                cov["root_splits_with_reallocation"] += last["rsr"]
+            if goal and prev_cl is not None and cur_cl is not None and prev_cl != cur_cl:
+                cov["goal_traces_with_reallocation_in_last_step"] += 1
+        with open(tp) as f:
+            for ln in f:
+                if '"ev":"BNew"' in ln or '"ev":"New"' in ln:
+                    close()
+                    last, prev_cl, cur_cl = None, None, None
+                    goal = '"src":"goal:' in ln
+                    if '"ev":"BNew"' in ln:
+                        cov["traces"] += 1
+                    if goal:
+                        cov["goal_traces"] += 1
+                if '"ev":"B' in ln:
+                    e = json.loads(ln)
+                    last = e["c"]
+                    cov["checkpoints"] += 1
+                    if e["ev"] == "BReopen":
+                        cov["reopens"] += 1
+                elif goal:
+                    m = re.search(r'"wb":\{"cl":(\d+)', ln)
+                    if m:
+                        prev_cl, cur_cl = cur_cl, int(m.group(1))
+        close()
+    return cov
 
 
 def known_entry(pid, why):
@@ -458,6 +597,7 @@ def run(ctx, pid):
     bg = ThreadPoolExecutor(max_workers=1)
     fut_map = bg.submit(simulate, ctx, "TreeMap", "SIM_TreeMap.cfg", {}, ctx.pick(60, 500),
                         ctx.pick(40, 80), "sim-map")
+    fut_goal = ThreadPoolExecutor(max_workers=1).submit(goal_behaviours, ctx, pid, toggles)
     mc, passed_toggles, leads, mc_consts = design_check(ctx, pid, toggles)
     modelled = sorted(k for k in TOGGLES if passed_toggles[k] and not toggles[k])
 
@@ -473,6 +613,11 @@ def run(ctx, pid):
         leads.append(lead_p)
         scen += lead_scenarios(lead_p, pers_mode)
     behs_m, c_m, sim_m, _ = fut_map.result()
+    goal_scen, goal_summ, goal_dleads = fut_goal.result()
+    for ld in goal_dleads:
+        leads.append(ld)
+        scen += lead_scenarios(ld, pers_mode)
+    tail_scen = goal_scen + bulk_scenarios(pid, rnd, quick, ctx.seed)
     if pers_mode:
         scen += model_scenarios(behs_p, c_p, "model-pages", True, rnd)
         scen += model_scenarios([with_reopens(b, rnd, 0.15) for b in behs_m], c_m, "model-map", True, rnd)
@@ -485,6 +630,7 @@ def run(ctx, pid):
             pers = i % 5 == 4
             scen += model_scenarios([with_reopens(b, rnd, 0.1) if pers else b], c_m, "model-map", pers, rnd)
         scen += random_scenarios(ctx.pick(120, 1600), 0.2, rnd, quick)
+    scen += tail_scen
     # 3. drive the real tree (several driver processes side by side: file-backed trees spend their
     #    time in msync; the design leads all go to the first process, so their trace ids are 1..)
     nproc = ctx.pick(4, 6)
@@ -583,6 +729,7 @@ def run(ctx, pid):
         samples.append({"design_counterexample": ld["invariant"], "ops": fmt_ops(ld["ops"], 30),
                         "toggles": ld["toggles"]})
     by_src = summ["by_src"]
+    bulk_cov = bulk_coverage([tp for tp, _ in traces])
     vlib.write_evidence(ctx, "model_checking", {
         "states": mc.distinct,
         "transitions": mc.generated,
@@ -596,6 +743,8 @@ def run(ctx, pid):
         "design_extra_exhaustive_runs": mc_consts.get("_extra_runs", []),
         "design_toggles_in_code": toggles,
         "design_repairs_modelled_for_exploration": modelled,
+        "coverage_goals": goal_summ,
+        "bulk_growth": bulk_cov,
         "design_counterexamples": [{"invariant": ld["invariant"], "ops": fmt_ops(ld["ops"], 30)} for ld in leads],
         "rejected_event_classes": totals,
         "samples": samples,
